@@ -731,8 +731,9 @@ class OP4:
         cols : integer
             Number of columns in matrix.
         """
-        # Scan matrix by column
-        icol = 1
+        # Scan matrix by column; the closing record (icol = cols + 1)
+        # must be read even if cols is 0
+        icol = 0
         bi = self._bytes_i
         delta = 4 - bi
         while icol <= cols:
